@@ -66,6 +66,7 @@ def check_stream(res, tr, allow_failures=True):
             start_idx = idx
             segments += 1
             pending_resets = []
+            candidate_written_at = -1
             if arg == -2:
                 state, want, candidate = "resolving", "earliest", None
             elif arg == -1:
@@ -88,6 +89,7 @@ def check_stream(res, tr, allow_failures=True):
                     if (want in ("earliest", "reset_earliest", "committed_earliest") and ts == -2) or \
                             (want in ("latest", "reset_latest", "committed_latest") and ts == -1):
                         candidate = r["offsets"][0]
+                        candidate_written_at = written_at.get(e["corr"], -1)
                     else:
                         res.violate("start/list-offsets-for-the-wrong-end", "the consumer asked ListOffsets for "
                                     "timestamp %d while it had to resolve '%s'" % (ts, want))
@@ -99,8 +101,12 @@ def check_stream(res, tr, allow_failures=True):
                         candidate = None
                     else:
                         candidate = r["offset"] + 1
+                        candidate_written_at = written_at.get(e["corr"], -1)
             elif api == "Fetch":
                 req = e["req"]["topics"][0]["partitions"][0]
+                if state == "resolving" and candidate is not None and \
+                        written_at.get(e["corr"], 10 ** 9) < candidate_written_at:
+                    continue  # a fetch written before the lookup that resolved the position, answered (late) after it
                 if state == "resolving" and candidate is not None:
                     if want.startswith("reset_") and next_expected is not None:
                         # messages fetched before the out-of-range answer are still in the pipeline: the jump to
